@@ -105,6 +105,9 @@ def lookalike_case(rep, drv, rnd, i):
 
 
 def case(rep, drv, rnd, i, tier):
+    if i % 16 == 5:
+        from . import c09
+        return c09.nonlinear_case(rep, drv, rnd, i)
     if i % 16 == 3:
         return lookalike_case(rep, drv, rnd, i)
     if i % 8 == 7:
